@@ -319,8 +319,13 @@ mut("c13-no-generation-bump", "C13", MM, '''            MementoFunction.incremen
                 reason="registered new function {}".format(''', '''            (lambda **kw: None)(
                 reason="registered new function {}".format(''', checks=["C13", "C01"])
 mut("c13-skip-did-change-scan", "C13", MM, '''                    if rule.did_change() or any(r.did_change() for r in rule.alternates)''', '''                    if False''', checks=["C13", "C01"])
-mut("c13-entry-version-call", "C13", MM, '''                        self._calculated_version = entry.version
-''', '''                        self._calculated_version = entry.version()
+mut("c13-adopt-cached-version", "C13", MM, '''                elif self._calculated_version is not None:
+                    return
+''', '''                else:
+                    if self._calculated_version is None:
+                        self._calculated_version = entry.version
+                        self._update_fn_reference()
+                    return
 ''')
 mut("c13-undefined-never-changes", "C13", CH, '''        if self.ref_is_global_table:
             return self.symbol in self.ref
